@@ -250,10 +250,9 @@ XSpec == XInit /\ [][XNext]_vars
 (* in-contract argument tuples (collect_garbage when it has none)           *)
 XSimNext ==
   /\ bad = "" /\ Len(path) < Depth - 1
-  /\ LET op  == RandomElement(HistOps)
-         cs  == XCallsOf(s, op, org.key)
-         cs2 == IF Cardinality(cs) = 0 THEN {K0("collect_garbage")} ELSE cs
-     IN \E c \in {RandomElement(cs2)} : XStep(c, FALSE)
+  /\ \E op \in {RandomElement(HistOps)} :      \* bound once (a LET would be re-evaluated)
+       LET cs == XCallsOf(s, op, org.key) IN
+       \E c \in {RandomElement(IF Cardinality(cs) = 0 THEN {K0("collect_garbage")} ELSE cs)} : XStep(c, FALSE)
 XSimView == <<s, done, bad, Len(path)>>
 XSimSpec == XInit /\ [][XSimNext]_vars
 
